@@ -12,8 +12,8 @@
 From NV Require Import Base Regex Generated.
 From NV Require C09_Model C09_Spec C09_Proofs C13_Model C13_Proofs.
 Require Import Lia.
-Open Scope string_scope.
 Open Scope list_scope.
+Open Scope string_scope.
 
 Module M9 := C09_Model.
 Module S9 := C09_Spec.
